@@ -83,10 +83,13 @@ PROPS = {
         explanation="writeGobWithOperations executed with every operation of its table wrapped: the harness records the operation trace and checks the durability protocol for every position of one injected failure: data flushed (fsync after the last write/chmod) before the rename that publishes the font name, directory flushed after the rename before success is reported, target untouched and no temporary file left on failure",
         outside="the power-loss model is the ordering argument (rename of an unflushed file may surface truncated data; an unflushed directory entry may be lost), not an enumeration of post-crash disk states; collection installs (syncDir calls are exercised by C06 but their ordering is not asserted); encoding/gob itself (replaced by a writer of fixed bytes)",
         assumptions=["POSIX durability contract: fsync(file) makes data durable, fsync(dir) makes entries durable, rename is atomic"],
-        harnesses=[dict(name="VerifGobDurable", bounds=dict(quick=dict(CALLS=10), thorough=dict(CALLS=12)), opts=dict(unwind=3000))],
+        harnesses=[dict(name="VerifGobDurable", bounds=dict(quick=dict(CALLS=10), thorough=dict(CALLS=12)), opts=dict(unwind=3000)),
+                   # the collection commit (shared with C06): success only if the font directory was flushed after the last publication
+                   dict(name="VerifCollectionCommit", bounds=dict(quick=dict(FONTS=2, CALLS=14), thorough=dict(FONTS=3, CALLS=22)), opts=dict(unwind=3000))],
     ),
     "C08": dict(
         pkg=TY,
+        opts=dict(unwind_violation=True),
         explanation="no-panic harnesses for the parsers of untrusted bytes: object parser (strict + relaxed retry + depth limit), object header and keyword scanners, string/name/date/UTF-16 text decoders, RunLength / ASCIIHex decoders: the input is an arbitrary byte string (every byte an SMT variable) of length <= N; any path on which the engine detects a Go panic (index, slice bound, nil dereference, type assertion, division by zero), an exceeded unwinding bound (non-termination) or runaway recursion is a violation; the recursion limit itself is checked by nests of DEPTH+2 arrays/dictionaries in every mix (with symbolic white space) that must be refused with ErrMaxRecursionDepthExceeded under a limit of DEPTH",
         outside="inputs longer than N bytes; whole-document reading, xref repair, cyclic object graphs, fonts, certificates, PKCS#7, JSON/CSV form data; time bounds; the time.Parse fall-backs of relaxed DateTime (stubbed off)",
         harnesses=[
@@ -105,6 +108,7 @@ PROPS = {
             dict(name="VerifXRefStreamLimits", bounds=dict(quick=dict(LIM=4), thorough=dict(LIM=8)), opts=dict(unwind=300)),
             dict(name="VerifObjectStreamLimits", opts=dict(unwind=100)),
             dict(name="VerifImageLimits", opts=dict(enc="int", solver="z3-new", timeout_ms=60000, unwind=100)),
+            dict(name="VerifPredictorRowFitsLimit", pkg=FI, opts=dict(enc="int", unwind=100, timeout_ms=60000)),
             # the decode-limit kernels (shared with C16): a bomb must end in ErrDecodeLimitExceeded at the limit
             dict(name="VerifLimitRunLength", pkg=FI, bounds=dict(quick=dict(N=3), thorough=dict(N=3)), opts=dict(unwind=700)),
             dict(name="VerifLimitASCIIHex", pkg=FI, bounds=dict(quick=dict(N=4), thorough=dict(N=4)), opts=dict(unwind=100)),
@@ -113,9 +117,10 @@ PROPS = {
     "C11": dict(
         pkg=PD,
         explanation="appendPDFObject (the writer's object serialiser) followed by model.ParseObjectContext (the reader's object parser), executed symbolically: every leaf kind with symbolic content (null, boolean, integer up to INTMAX in magnitude, names without NUL, escaped literal strings and hex strings of <= S bytes, indirect references), and arrays / dictionaries / nested containers over every ordered pair of neighbouring leaf kinds (separator decisions) with representative concrete leaves and a symbolic one-byte dictionary key; hex strings compare by their bytes, null dictionary entries read back as absent",
-        outside="reals (strconv.AppendFloat on symbolic floats is out of reach), integers beyond INTMAX (the digit reconstruction query is unknown at 120 s for long digit strings in every encoding/solver), strings longer than S bytes, nesting deeper than 2, Dict.PDFString / Array.PDFString (the second serialisation path)",
+        outside="the VALUE of reals (strconv.AppendFloat / ParseFloat on symbolic floats are out of reach; only the KIND a real token of up to DIGITS integer digits is read back as is checked: VerifRealTokenKind), integers beyond INTMAX (the digit reconstruction query is unknown at 120 s for long digit strings in every encoding/solver), strings longer than S bytes, nesting deeper than 2, Dict.PDFString / Array.PDFString (the second serialisation path)",
         harnesses=[
             dict(name="VerifObjectLeafRoundTrip", bounds=dict(quick=dict(S=1, INTMAX=999), thorough=dict(S=2, INTMAX=99999)), opts=dict(unwind=300, timeout_ms=60000)),
+            dict(name="VerifRealTokenKind", pkg=MO, bounds=dict(quick=dict(DIGITS=21), thorough=dict(DIGITS=21)), opts=dict(unwind=300, enc="int")),
             dict(name="VerifObjectPairRoundTrip", bounds=dict(quick=dict(S=1, INTMAX=9), thorough=dict(S=1, INTMAX=9)), opts=dict(unwind=300)),
         ],
     ),
@@ -314,6 +319,7 @@ PROPS = {
     ),
     "C36": dict(
         pkg=PD,
+        opts=dict(unwind_violation=True),
         explanation="the half of the property that quantifies over ALL outlines - reading terminates, also on cyclic ones - executed symbolically: BookmarksForOutlineItem / bookmarksForOutlineItem / outlineItemDict / checkBookmarkCycle / checkBookmarkRecursionDepth / outlineItemDestination / title / bookmark on an arbitrary outline graph over ITEMS items (every /Next and /First absent or a reference to any item, as solver variables: chains, trees, self references, cycles through First and/or Next, shared kids; titled or untitled; symbolic target pages). The reader must return - the unwinding bound and the call-depth limit of the engine make non-termination a violation - with ErrCircularBookmarks exactly when an item is reachable twice (compared with a reference walk), and otherwise with the titled items of each Next chain in order, target pages and PageThru as documented",
         outside="the export -> JSON -> import -> export round trip (encoding/json reflection, whole documents), titles, colours and styles beyond their presence, PageNrFromDestination (stubbed: the destination of item k maps to a symbolic page), outlines of more than ITEMS items",
         harnesses=[
@@ -324,7 +330,8 @@ PROPS = {
         pkg=MO,
         explanation="Node.Add / HandleLeaf / insertIntoLeaf / updateNameTreeLimits / Node.Remove / removeFromLeaf / removeFromKids / Node.Value executed symbolically on histories of I inserts then R removals with symbolic 1-byte keys on an empty tree (maxEntries = 3: the 4th distinct key splits the leaf); the solver enumerates every feasible ordering/equality pattern of the keys; after each operation: keys strictly ascending, node limits = min/max below, lookups = reference association list",
         outside="histories longer than the bounds, keys longer than one byte (ordering is lexicographic: one byte exercises every comparison outcome), trees read from documents, NameMap renaming of duplicate keys, writing and re-reading the tree",
-        harnesses=[dict(name="VerifNameTreeHistory", bounds=dict(quick=dict(I=5, R=1), thorough=dict(I=5, R=1)), opts=dict(unwind=200))],
+        harnesses=[dict(name="VerifNameTreeHistory", bounds=dict(quick=dict(I=5, R=1), thorough=dict(I=5, R=1)), opts=dict(unwind=200)),
+                   dict(name="VerifNameTreeForeignShape", bounds=dict(quick=dict(KIDS=3), thorough=dict(KIDS=3)), opts=dict(unwind=200))],
     ),
     "C42": dict(
         pkg=SM,
